@@ -91,6 +91,9 @@ AddFitnessMonotone ==
                                        /\ Le(cur.post.fits[i].v, cur.pre.fits[i].v)
 MergeOrderIndependent ==
   (l > 0 /\ cur.kind = "merge") => \A i, j \in DOMAIN cur.projs : cur.projs[i] = cur.projs[j]
+(* analysing cached results (analyze_results over the same result objects, repeatedly and in     *)
+(* different orders) leaves every individual trace as it was                                     *)
+MergeKeepsInputs == (l > 0 /\ cur.kind = "merge") => cur.inputs_kept
 
 (* ---------------- conformance with FitnessOps (reported as drift, never a verdict) ------ *)
 SetOf(s) == {s[i] : i \in DOMAIN s}
